@@ -132,6 +132,7 @@ type c05RsvDef struct {
 	opts          [][]corev1.ResourceName // restricted-options variants; index 0 is the initial one; nil = no annotation
 	optsJSON      []string
 	allocatedJSON string
+	order         string // label scheduling.koordinator.sh/reservation-order ("" = none)
 }
 
 func (d *c05RsvDef) isAllocOnce() bool { return d.allocOnce == nil || *d.allocOnce }
@@ -170,6 +171,38 @@ func c05AllocatedJSON(name string, uid types.UID) string {
 	apiext.SetReservationAllocated(o, &metav1.ObjectMeta{Name: name, UID: uid})
 	return o.Annotations[apiext.AnnotationReservationAllocated]
 }
+
+// c05MakeOrderDefs: the definitions of the parts hist-order-*: THREE reservations on one node that carry reservation-order
+// labels (the nominator prefers the smallest order among the candidates that passed the nominate filter; with fewer
+// than two survivors it never looks at the labels: seed C05-5), and three owner pods of which two fill r1 exactly.
+// first names the reservation that carries the smallest order.
+func c05MakeOrderDefs(first string) ([]*c05RsvDef, []*c05PodDef) {
+	ord := map[string]string{"r1": "2", "r2": "3", "r4": "4"}
+	ord[first] = "1"
+	rs := []*c05RsvDef{
+		{name: "r1", uid: "uid-r1", policy: schedulingv1alpha1.ReservationAllocatePolicyRestricted, allocOnce: ptr.To(false), home: "n1",
+			assumeNodes: []string{"n1"}, opts: [][]corev1.ResourceName{nil}, order: ord["r1"]},
+		{name: "r2", uid: "uid-r2", policy: schedulingv1alpha1.ReservationAllocatePolicyDefault, allocOnce: nil, home: "n1",
+			assumeNodes: []string{"n1"}, opts: [][]corev1.ResourceName{nil}, order: ord["r2"]},
+		{name: "r4", uid: "uid-r4", policy: schedulingv1alpha1.ReservationAllocatePolicyAligned, allocOnce: ptr.To(false), home: "n1",
+			assumeNodes: []string{"n1"}, opts: [][]corev1.ResourceName{nil}, order: ord["r4"]},
+	}
+	ps := []*c05PodDef{
+		{name: "q1", uid: "uid-q1", cpu: 2, mem: 1, owner: true},
+		{name: "q2", uid: "uid-q2", cpu: 2, mem: 0, owner: true},
+		{name: "q5", uid: "uid-q5", cpu: 1, mem: 1, owner: true},
+	}
+	for _, d := range rs {
+		d.allocatedJSON = c05AllocatedJSON(d.name, d.uid)
+		d.optsJSON = []string{""}
+	}
+	return rs, ps
+}
+
+// c05OrderKinds: the event kinds of the parts hist-order-* (the ones that decide who is assigned to what and whether the
+// matchable index was refreshed since).
+var c05OrderKinds = map[string]bool{"rsv.add-available": true, "rsv.upd-unschedulable": true, "rsv.delete": true, "sched.assume-pod": true,
+	"sched.forget-pod": true, "inf.bound": true, "inf.deleted": true, "inf.unchanged": true}
 
 func c05MakeDefs() ([]*c05RsvDef, []*c05PodDef) {
 	cpu, mem := corev1.ResourceCPU, corev1.ResourceMemory
@@ -331,6 +364,9 @@ func (s *c05Sys) rsvObj(r *c05Rsv) *schedulingv1alpha1.Reservation {
 	}
 	if d.opts[r.opt] != nil {
 		o.Annotations = map[string]string{apiext.AnnotationReservationRestrictedOptions: d.optsJSON[r.opt]}
+	}
+	if d.order != "" {
+		o.Labels[apiext.LabelReservationOrder] = d.order
 	}
 	switch r.phase {
 	case "pending":
@@ -805,7 +841,7 @@ func c05Count(name string, n int64) {
 
 func c05FlushCounters(res *mc.Result) {
 	for i, n := range c05CounterNames {
-		if v := atomic.LoadInt64(&c05CounterVals[i]); v != 0 {
+		if v := atomic.SwapInt64(&c05CounterVals[i], 0); v != 0 { // (reset: the next part counts from zero)
 			res.Count(n, v)
 		}
 	}
@@ -1191,6 +1227,10 @@ func (s *c05Sys) checkCycles(exhausted bool) []mc.Violation {
 			if !p.def.owner {
 				viol = append(viol, s.v("matched-non-owner|nominated", p.def.name+r.def.name, fmt.Sprintf("pod %s (no owner label) is nominated to reservation %s", p.def.name, r.def.name)))
 			}
+			if !s.refFits(r, p) {
+				viol = append(viol, s.v("restricted-nominated-without-fit|NominateReservation", p.def.name+r.def.name, fmt.Sprintf("BeforePreFilter -> Filter(%s) -> NominateReservation nominates restricted reservation %s for pod %s (cpu %d, mem %dGi) although %v are assigned to it and the sum would exceed what it reserves (matched=%d)",
+					node, r.def.name, p.def.name, p.cpu(), p.def.mem, c05PodNames(s.assigned(r)), len(nrs.matchedOrIgnored))))
+			}
 			if r.def.isAllocOnce() && len(s.assigned(r)) > 0 {
 				via := "filtered-candidates"
 				if p.def.affinity && len(nrs.matchedOrIgnored) == 1 {
@@ -1418,4 +1458,26 @@ func TestVerifC05Hist(t *testing.T) {
 	res.Bounds["scheduling_cycle_oracle"] = map[bool]string{true: "every state with a matchable reservation", false: "every state with an exhausted allocate-once reservation"}[evalAll]
 	c05FlushCounters(res)
 	env.Emit(res)
+
+	// parts hist-order-*: three order-labelled reservations on one node, the scheduling-cycle oracle in every state
+	saveR, saveP := c05RsvDefs, c05PodDefs
+	defer func() { c05RsvDefs, c05PodDefs = saveR, saveP }()
+	for _, first := range []string{"r2", "r1"} {
+		c05RsvDefs, c05PodDefs = c05MakeOrderDefs(first)
+		var oops []c05Op
+		for _, o := range c05BuildOps() {
+			if c05OrderKinds[o.kind] {
+				oops = append(oops, o)
+			}
+		}
+		ores := mc.NewResult("C05", "hist-order-"+first+"-first", "bfs")
+		ores.Rule = fmt.Sprintf("BFS over all sequences of a %d-event alphabet on the real reservationCache + event handlers + Plugin: reservations r1 (Restricted), r2 (default policy, allocate-once), r4 (Aligned) ALL on node n1 with reservation-order labels (%s carries the smallest): informer add-available / unschedulable toggle / delete; pods q1 (2,1), q2 (2,0), q5 (1,1), all owners: scheduler Reserve/Unreserve on a reservation, informer bound / unchanged update / deleted; the real BeforePreFilter -> Filter -> NominateReservation path is run for every pending pod in EVERY state: an exhausted allocate-once reservation or a restricted reservation the pod does not fit into is never nominated, whatever the order labels prefer", len(oops), first)
+		ores.Assumptions = res.Assumptions
+		ob := &mc.BFS{Res: ores, Env: env, New: func() mc.System { return c05NewSys(ores, oops, true) }, NumOps: len(oops),
+			OpName: func(i int) string { return oops[i].name }, MaxDepth: env.Pick(7, 10), Repeats: 0}
+		ores.Bounds = map[string]any{"scheduling_cycle_oracle": "every state with a matchable reservation"}
+		ob.Run()
+		c05FlushCounters(ores)
+		env.Emit(ores)
+	}
 }
